@@ -130,7 +130,7 @@ pub fn level_cases() -> Vec<(Method, Option<i32>)> {
 }
 
 pub fn run(ctx: &mut Ctx) {
-    ctx.rule("programs: proptest-generated legal writer programs (0..12 entries: files of every method/level, dirs, symlinks, comments; names ASCII/UTF-8/NUL/backslash/empty/duplicates; any valid timestamp; any permission bits; large_file) run twice (finish and drop), read back through ZipArchive with varied caller buffers; non-trivial = at least one entry with non-empty content; distinct by hash of the program. many: programs with hundreds..thousands (thorough: >65535) of entries. levels: every documented (method, level) pair x 3 contents. boundary: names/comments at 16-bit length boundaries. comment_sweep: every archive-comment length 0..=65535 (exhaustive over the length), every 16th with a name of the same length.");
+    ctx.rule("programs: proptest-generated legal writer programs (0..12 entries: files of every method/level, dirs, symlinks, comments; names ASCII/UTF-8/NUL/backslash/empty/duplicates; any valid timestamp; any permission bits; large_file) run twice (finish and drop), read back through ZipArchive with varied caller buffers; non-trivial = at least one entry with non-empty content; distinct by hash of the program. many: programs with hundreds..thousands (thorough: >65535) of entries. levels: every documented (method, level) pair x 3 contents. boundary: names/comments at 16-bit length boundaries. comment_sweep: every archive-comment length 0..=65535 (exhaustive over the length), every 16th with a name of the same length. from_path: start_file_from_path / add_directory_from_path (paths with root, '.', '..', empty, non-UTF-8 and backslash components) and set_comment(String): the entry must read back under the path's Normal components joined by '/', with its content; is_dir()/is_file() follow the name.");
     ctx.assume("flate2/bzip2/zstd codecs are trusted; CRC-32 of the model content is computed by an independent table-driven implementation");
     ctx.assume("names and comments never embed ZIP end-record signatures (format-inherent ambiguity, excluded by construction)");
 
@@ -307,6 +307,105 @@ pub fn run(ctx: &mut Ctx) {
             match check_program(&Program { ops }, 0) {
                 Ok(_) => Verdict::Pass,
                 Err(e) => Verdict::Fail(format!("archive comment of {} bytes: {}", c.comment_len, trunc(&e))),
+            }
+        },
+    );
+
+    // the path-taking entry points (deprecated but public): `start_file_from_path` /
+    // `add_directory_from_path` document that '/' is used as separator and every component that is not
+    // `Normal` (root, `.`, `..`) is ignored; `set_comment` takes a string. Model: lossy-decoded normal
+    // components joined by '/', written with the given content, read back under exactly that name.
+    #[derive(Clone, Debug, Serialize, Deserialize, Hash)]
+    struct FromPath {
+        entries: Vec<(Vec<Vec<u8>>, bool, bool, bool, Vec<u8>)>,
+        comment: String,
+    }
+    let nfp = ctx.q(3000, 40000);
+    ctx.explore::<FromPath>(
+        "from_path",
+        nfp,
+        &|| {
+            let comp = prop_oneof![
+                4 => "[a-z]{1,6}".prop_map(|s| s.into_bytes()),
+                2 => Just(b".".to_vec()),
+                2 => Just(b"..".to_vec()),
+                1 => Just(Vec::new()),
+                1 => "\\PC{1,5}".prop_map(|s| s.into_bytes().into_iter().filter(|b| *b != b'/' && *b != 0).collect::<Vec<u8>>()),
+                1 => Just(b"x\\y".to_vec()),
+                1 => Just(vec![b'n', 0xff, 0xfe]),
+                1 => Just(b"...".to_vec()),
+                1 => Just(b" ".to_vec()),
+            ];
+            let entry = (proptest::collection::vec(comp, 0..6), any::<bool>(), any::<bool>(), prop_oneof![3 => Just(false), 1 => Just(true)], proptest::collection::vec(any::<u8>(), 0..40));
+            (proptest::collection::vec(entry, 1..6), "\\PC{0,30}").prop_map(|(entries, comment)| FromPath { entries, comment }).boxed()
+        },
+        &|c: &FromPath, info: &mut Info| {
+            use std::os::unix::ffi::OsStrExt;
+            #[allow(deprecated)]
+            let r = catch(|| -> Result<(), String> {
+                let mut sink = std::io::Cursor::new(Vec::new());
+                let mut expect: Vec<(String, Vec<u8>)> = Vec::new();
+                {
+                    let mut w = std::mem::ManuallyDrop::new(zip::ZipWriter::new(&mut sink));
+                    let o = zip::write::FileOptions::default().compression_method(zip::CompressionMethod::Stored).last_modified_time(zip::DateTime::default());
+                    for (comps, lead, trail, dir, content) in &c.entries {
+                        let mut raw: Vec<u8> = Vec::new();
+                        if *lead {
+                            raw.push(b'/');
+                        }
+                        raw.extend_from_slice(&comps.join(&b'/'));
+                        if *trail {
+                            raw.push(b'/');
+                        }
+                        let path = std::path::Path::new(std::ffi::OsStr::from_bytes(&raw));
+                        let normal: Vec<String> = raw.split(|b| *b == b'/').filter(|c| !c.is_empty() && *c != b"." && *c != b"..").map(|c| String::from_utf8_lossy(c).into_owned()).collect();
+                        let mut name = normal.join("/");
+                        if *dir {
+                            w.add_directory_from_path(path, o).map_err(|e| format!("add_directory_from_path({path:?}): {e}"))?;
+                            if !name.ends_with('/') && !name.ends_with('\\') {
+                                name.push('/');
+                            }
+                            expect.push((name, Vec::new()));
+                        } else {
+                            w.start_file_from_path(path, o).map_err(|e| format!("start_file_from_path({path:?}): {e}"))?;
+                            std::io::Write::write_all(&mut *w, content).map_err(|e| format!("write: {e}"))?;
+                            expect.push((name, content.clone()));
+                        }
+                    }
+                    w.set_comment(c.comment.clone());
+                    w.finish().map_err(|e| format!("finish: {e}"))?;
+                }
+                let bytes = sink.into_inner();
+                let mut za = zip::ZipArchive::new(std::io::Cursor::new(&bytes[..])).map_err(|e| format!("ZipArchive::new: {e}"))?;
+                if za.comment() != c.comment.as_bytes() {
+                    return Err(format!("set_comment({:?}) reads back as {:?}", c.comment, String::from_utf8_lossy(za.comment())));
+                }
+                if za.len() != expect.len() || za.is_empty() != expect.is_empty() {
+                    return Err(format!("{} entries written, len() = {}", expect.len(), za.len()));
+                }
+                for (i, (name, content)) in expect.iter().enumerate() {
+                    let mut f = za.by_index(i).map_err(|e| format!("by_index({i}): {e}"))?;
+                    if f.name() != name {
+                        return Err(format!("entry {i}: name {:?}, the path's normal components joined by '/' are {:?}", f.name(), name));
+                    }
+                    let mut v = Vec::new();
+                    std::io::Read::read_to_end(&mut f, &mut v).map_err(|e| format!("read entry {i}: {e}"))?;
+                    if v != *content {
+                        return Err(format!("entry {i} ({name:?}): content differs"));
+                    }
+                    if f.is_dir() != (name.ends_with('/') || name.ends_with('\\')) || f.is_file() == f.is_dir() {
+                        return Err(format!("entry {i} ({name:?}): is_dir()={} is_file()={}", f.is_dir(), f.is_file()));
+                    }
+                }
+                Ok(())
+            });
+            info.nontrivial = c.entries.iter().any(|(comps, lead, ..)| *lead || comps.iter().any(|x| x.is_empty() || x == b"." || x == b".."));
+            info.label_if(c.entries.iter().any(|e| e.3), "add_directory_from_path");
+            info.label_if(c.entries.iter().any(|e| e.0.iter().any(|x| std::str::from_utf8(x).is_err())), "non-utf8-component");
+            match r {
+                Ok(Ok(())) => Verdict::Pass,
+                Ok(Err(m)) => Verdict::Fail(m),
+                Err(p) => Verdict::Fail(format!("PANIC: {p}")),
             }
         },
     );
